@@ -86,3 +86,13 @@ type DateTime interface {
 	// GoTime returns the underlying time.Time object.
 	GoTime() time.Time
 }
+
+// unquote returns the contents of data, which must be a quoted JSON string,
+// or an error reporting that data cannot be parsed as format.
+func unquote(data []byte, format string) ([]byte, error) {
+	const quotes = 2
+	if len(data) < quotes || data[0] != '"' || data[len(data)-1] != '"' {
+		return nil, fmt.Errorf("%w: Cannot parse %s as %q", ErrSQLType, data, format)
+	}
+	return data[1 : len(data)-1], nil
+}
